@@ -31,7 +31,10 @@ Others == << [text |-> "m " \o "+ on (a) n", type |-> "vector"], [text |-> "m + 
              [text |-> "m @ 2", type |-> "vector"], [text |-> "m offset 1s", type |-> "vector"], [text |-> "m[2s] offset 1s", type |-> "matrix"],
              [text |-> "m @ start()", type |-> "vector"], [text |-> "m[4s:2s] offset 1s", type |-> "matrix"], [text |-> "m[4s:2s] @ 3", type |-> "matrix"],
              [text |-> "3", type |-> "scalar"], [text |-> "2 + 3", type |-> "scalar"], [text |-> "2 > bool 1", type |-> "scalar"],
-             [text |-> "{__name__=~\"m|n\"}", type |-> "vector"], [text |-> "m{a=\"x\"} or n", type |-> "vector"] >>
+             [text |-> "{__name__=~\"m|n\"}", type |-> "vector"], [text |-> "m{a=\"x\"} or n", type |-> "vector"],
+             \* a vector operand that selects no series
+             [text |-> "m or vector(time())", type |-> "vector"], [text |-> "vector(time()) unless on () m", type |-> "vector"],
+             [text |-> "m + on () group_left () vector(time())", type |-> "vector"], [text |-> "vector(time())", type |-> "vector"] >>
 BinOps == SelectSeq(Operators, LAMBDA o : o \notin {"=~", "!~"})
 Constructs == [i \in 1..Len(Functions) |-> FnC(Functions[i])] \o [i \in 1..Len(Aggregators) |-> AggC(Aggregators[i])]
               \o [i \in 1..Len(BinOps) |-> BinC(BinOps[i])] \o Others
